@@ -124,7 +124,10 @@ func runSchedCase(c *ctx, tc schedCase) {
 			pb.jar = append(pb.jar, *jc)
 		}
 		method, target := "GET", ""
-		hdr := http.Header{"Sec-Fetch-Mode": {"navigate"}, "Sec-Fetch-Dest": {"document"}}
+		// all concurrent requests of a case carry the SAME correlation / trace identifiers (a client that re-uses X-Request-Id, one distributed trace fanning out):
+		// nothing request-scoped may stand in for the identity of a lock holder
+		hdr := http.Header{"Sec-Fetch-Mode": {"navigate"}, "Sec-Fetch-Dest": {"document"}, "X-Request-Id": {"shared-request-id"}, "X-Correlation-Id": {"shared-correlation-id"},
+			"Traceparent": {"00-4bf92f3577b34da6a3ce929d0e0e4736-00f067aa0ba902b7-01"}}
 		switch p.kind {
 		case "refresh":
 			method, target = "POST", base+"/oauth2/session/refresh"
